@@ -11,6 +11,7 @@ mod c16;
 mod c09;
 mod c19;
 mod c05;
+mod c06;
 mod c07;
 mod c08;
 mod c20;
@@ -66,6 +67,7 @@ fn main() {
         "c09" => c09::main(&args),
         "c19" => c19::main(&args),
         "c05" => c05::main(&args),
+        "c06" => c06::main(&args),
         "c07" => c07::main(&args),
         "c08" => c08::main(&args),
         "c20" => c20::main(&args),
